@@ -136,7 +136,7 @@ def scopeRows (sc : Scope) (sd : ScopeDisk K P) : List Row :=
   | [] => []
 
 /-- `NewScopedKeyManager` (non-watch-only manager) -/
-def opNewScope (hd : HD K P) (s : State K P) (sc : Scope) (schema : Schema) : State K P × Res K × List Row :=
+def opNewScope (cfg : Cfg) (hd : HD K P) (s : State K P) (sc : Scope) (schema : Schema) : State K P × Res K × List Row :=
   if s.mem.watchOnly then (s, .err .other, []) else     -- (key-less scopes of watch-only managers: not modelled)
   if s.mem.locked then (s, .err .locked, []) else
   match s.disk.rootPriv with
@@ -145,7 +145,8 @@ def opNewScope (hd : HD K P) (s : State K P) (sc : Scope) (schema : Schema) : St
     if (getSD s sc).isSome then (s, .err .other, []) else
     match mkKeyScope hd root sc schema with
     | none => (s, .err .keyChain, [])
-    | some sd =>
+    | some sd0 =>
+      let sd := { sd0 with lastAcct := if cfg.l1 then none else some 0 }
       let s1 := putSD s sc sd
       (putSM s1 sc { schema := schema, acctInfo := [], addrs := [], dou := [] }, .ok, scopeRows sc sd)
 
@@ -397,7 +398,7 @@ def step (cfg : Cfg) (hd : HD K P) (s : State K P) (op : Op K P) : State K P × 
     | .unlock p => opUnlock cfg hd s p
     | .lock => opLock s
     | .changePass priv o n => opChangePass s priv o n
-    | .newScope sc sch => opNewScope hd s sc sch
+    | .newScope sc sch => opNewScope cfg hd s sc sch
     | .newAccount sc name => opNewAccount hd s sc name
     | .newAccountWO sc name x ci fp sch => opNewAccountWO s sc name x ci fp sch
     | .next sc a n int hb => opNext hd s sc a n int hb
